@@ -15,9 +15,15 @@ from ..symeval import SymEval
 S = T.sym
 
 
+def _owner(model, q, fi):
+    """the class a method is asked for, when the method itself now lives in a base class of it"""
+    owner = q.rsplit(".", 1)[0]
+    return owner if owner in model.classes and owner != fi.cls and fi.parent is None else None
+
+
 def _r(model, q):
     fi = model.func(q)
-    return fi, SymEval(model).run_function(fi)
+    return fi, SymEval(model).run_function(fi, as_class=_owner(model, q, fi))
 
 
 def normalize_expansion(model, recv, x, clip: bool, subtract_mean: bool):
@@ -219,7 +225,7 @@ def run(chk: Check, model):
     chk.add("C19.squash", "unsquash without squashing clips to [low, high]", T.assume(ru.ret, sq, False) == T.mk_call("jax.numpy.clip", [x, lo, hi]), f"unsquash (no squash) = {T.show(T.assume(ru.ret, sq, False))[:120]}", chk.loc(f_u))
     # (SquashState.unsquash is analysed inline here: clipping through a non-squashing SquashState is the same clip, decided above)
     fi = model.func("rl.ClipActionWrapper.step")
-    r = SymEval(model, inline=("rl.SquashState.unsquash",)).run_function(fi)
+    r = SymEval(model, inline=("rl.SquashState.unsquash",)).run_function(fi, as_class=_owner(model, "rl.ClipActionWrapper.step", fi))
     ret = r.ret
     ok = ret[0] == "call" and T.call_name(ret) == "self._env.step" and len(ret[2]) == 2 and ret[2][0] == S("graph_state")
     if ok:
